@@ -423,6 +423,20 @@ structure Caller where
 /-- components of a wrapper: `None`, or a list of names -/
 abbrev Comps := Option (List Str)
 
+/-- how the bodies of the wrappers of one class statement are written (what decides which frames are on
+Python's stack when `get_conn()` runs) -/
+structure Bodies where
+  /-- wrappers whose body only evaluates `self.<inner>(…)`; the flag: the body itself drives (consumes)
+  a generator / coroutine object that this call returns, instead of handing it on to its own caller -/
+  delegates : List (Str × Str × Bool)
+  /-- wrappers written as generator / coroutine functions: calling them runs nothing, the body runs
+  when the returned object is driven - by whoever drives it -/
+  deferred : List Str
+  /-- wrappers whose body reaches `get_conn()` through a helper function (`_shared_conn`, a helper
+  generator `_gen_conn`): the name of the helper's frame -/
+  reach : List (Str × Str)
+  deriving DecidableEq, Repr
+
 /-- a subclass of `MCallerHttp` -/
 structure ClassDef where
   bases : List Nat            -- direct bases, in the order of the class statement
@@ -430,7 +444,7 @@ structure ClassDef where
   pmap : Option UDict         -- `_HTTP_PREFIX_MAP` if the class body defines it
   own : List (Str × Comps)    -- wrappers defined in the class body: name ↦ components of `method_http`
   metas : List (Str × Comps)  -- `_MCALLERS_METAS` as computed by the metaclass
-  delegates : List (Str × Str) -- wrappers of the class body whose body only calls another wrapper: `self.<inner>(…)`
+  bodies : Bodies             -- how the wrapper bodies of the class statement are written
   deriving DecidableEq, Repr
 
 structure Heap where
@@ -486,7 +500,7 @@ inductive Op where
   | newDict (d : UDict)
   | newData (v : J)           -- a structured `data=` object of the caller
   | newParams (d : Dict)      -- a params object: dict with non-str values, or list / tuple of pairs
-  | newClass (bases mro : List Nat) (pmap : Option UDict) (own : List (Str × Comps)) (delegates : List (Str × Str))
+  | newClass (bases mro : List Nat) (pmap : Option UDict) (own : List (Str × Comps)) (bodies : Bodies)
   | mk (t : Target) (own : Own) (plain : Bool)
   | add (c : Nat) (a : Adapter)
   | newCaller (t : Target) (cls : Nat)
@@ -789,22 +803,88 @@ def bodyClass (cs : List ClassDef) (m : Str) : List Nat → Option Nat
     | some cd => if cd.own.any (·.1 = m) then some c else bodyClass cs m r
     | none => bodyClass cs m r
 
-/-- the wrapper that finally makes the request when `k.m(…)` is called: a body that only calls
-`self.<inner>(…)` hands over to the body Python's MRO selects for `inner`, and so on; `get_conn()` is
-called in the innermost one (`get_mcaller_meta` walks the stack from the innermost frame outwards and
-stops at the first function that is a wrapper). Result: (name, class of the body) of that wrapper. -/
-def resolveWrapper (cs : List ClassDef) (mro : List Nat) : Nat → Str → Except Err (Str × Nat)
-  | 0, _ => .error .outOfFuel
-  | fuel + 1, m =>
+/-! ### Which wrapper is "the calling wrapper": Python's frame stack when `get_conn()` runs
+
+`get_mcaller_meta` (mcaller.py:83-88) walks the frames from its caller outwards and returns the entry of
+`_MCALLERS_METAS` for the first frame whose function *name* is a key of the table. The model keeps the
+stack as the list of those names, innermost first. What is on the stack depends on how the wrapper
+bodies are written:
+
+* an ordinary wrapper runs inside the logging decorator: `m :: decorated_method_body :: <stack of the call>`;
+* a wrapper written as a generator / coroutine function: the decorator returns the object at once; the body
+  runs when the object is driven: `m :: <stack of whoever drives it>` - no decorator frame, and the frames of
+  the wrapper that called it are there only if that wrapper drives the object itself;
+* a body may reach `get_conn()` through a helper function (its frame lies above the wrapper's). -/
+
+/-- frame names of functions that are not wrappers -/
+def decoFrame : Str := "decorated_method_body".toList
+def driveFrame : Str := "_drive".toList      -- the function that drives a generator / coroutine object to its value
+def getConnFrame : Str := "get_conn".toList
+
+/-- `get_mcaller_meta`: the entry of the first frame (innermost first) whose name is a key of the table -/
+def frameMeta (metas : List (Str × Comps)) : List Str → Option Comps
+  | [] => none
+  | f :: r =>
+    match lookup metas f with
+    | some c => some c
+    | none => frameMeta metas r
+
+/-- what evaluating a wrapper body (or a wrapper call) has come to -/
+inductive Outcome where
+  /-- the request has been made: the stack when `get_conn()` ran, the wrapper whose body made it and the
+  class of that body -/
+  | made (stack : List Str) (m : Str) (b : Nat)
+  /-- an object of the generator / coroutine wrapper `m` whose body has not run yet -/
+  | pending (m : Str)
+  deriving DecidableEq, Repr
+
+/-- is the body Python's MRO selects for `m` a generator / coroutine function -/
+def isDeferred (cs : List ClassDef) (mro : List Nat) (m : Str) : Except Err Bool :=
+  match bodyClass cs m mro with
+  | none => .error .attributeError
+  | some b =>
+    match cs[b]? with
+    | none => .error .keyError
+    | some bd => .ok (bd.bodies.deferred.contains m)
+
+/-- `self.<m>(…)` evaluated in a frame whose stack is `caller`; with `drive` the same frame then passes the
+result to `_drive(…)`. `body m ctx drive` = what running the body of `m` on top of the frames `ctx` comes to
+(with `drive`: and driving whatever pending object it returns, from the same place). -/
+def callWith (body : Str → List Str → Bool → Except Err Outcome) (cs : List ClassDef) (mro : List Nat)
+    (m : Str) (caller : List Str) (drive : Bool) : Except Err Outcome :=
+  match isDeferred cs mro m with
+  | .error e => .error e
+  | .ok false =>
+    match body m (decoFrame :: caller) false with
+    | .ok (.pending m') => if drive then body m' (driveFrame :: caller) true else .ok (.pending m')
+    | r => r
+  | .ok true => if drive then body m (driveFrame :: caller) true else .ok (.pending m)
+
+/-- running the body that Python's MRO selects for wrapper `m` on top of the frames `ctx`; with `drive`
+the frames `ctx` belong to `_drive`, which goes on driving while the value is a pending object. -/
+def runBody (cs : List ClassDef) (mro : List Nat) : Nat → Str → List Str → Bool → Except Err Outcome
+  | 0, _, _, _ => .error .outOfFuel
+  | fuel + 1, m, ctx, drive =>
     match bodyClass cs m mro with
     | none => .error .attributeError
     | some b =>
       match cs[b]? with
       | none => .error .keyError
       | some bd =>
-        match lookup bd.delegates m with
-        | some inner => resolveWrapper cs mro fuel inner
-        | none => .ok (m, b)
+        let r : Except Err Outcome :=
+          match lookup bd.bodies.delegates m with
+          | none =>
+            match lookup bd.bodies.reach m with
+            | none => .ok (.made (getConnFrame :: m :: ctx) m b)
+            | some h => .ok (.made (getConnFrame :: h :: m :: ctx) m b)
+          | some (inner, drives) => callWith (runBody cs mro fuel) cs mro inner (m :: ctx) drives
+        match r with
+        | .ok (.pending m') => if drive then runBody cs mro fuel m' ctx true else r
+        | r => r
+
+/-- `k.m(…)` called by plain code (no frame named like a wrapper), which drives the result to its value -/
+def callTop (cs : List ClassDef) (mro : List Nat) (m : Str) : Except Err Outcome :=
+  callWith (runBody cs mro 32) cs mro m [] true
 
 /-- the harness's wrapper bodies send to `path + "~" + <number of the class whose body runs>` -/
 def bodySuffix (c : Nat) : Str := '~' :: (toString c).toList
@@ -848,12 +928,12 @@ def step (H : Heap) : Op → Heap × Except Err Reply
     if d.all (fun kv => kv.2.text.isSome) then
       ({ H with dicts := H.dicts ++ [d], userDicts := H.userDicts ++ [H.dicts.length] }, .ok (.ref H.dicts.length))
     else (H, .error .typeError)
-  | .newClass bases mro pmap own delegates =>
+  | .newClass bases mro pmap own bodies =>
     match bases.mapM (fun b => H.classes[b]?) with
     | none => (H, .error .keyError)
     | some bs =>
       ({ H with classes := H.classes ++
-          [{ bases, mro, pmap, own, metas := mergeMetas (bs.map (·.metas)) own, delegates }] },
+          [{ bases, mro, pmap, own, metas := mergeMetas (bs.map (·.metas)) own, bodies }] },
        .ok (.ref H.classes.length))
   | .newCaller t cls =>
     -- `MCallerHttp.__init__`: an `HttpConn` is taken as it is, anything else goes to `HttpConn(address)`
@@ -899,20 +979,21 @@ def step (H : Heap) : Op → Heap × Except Err Reply
       | none => (H, .error .keyError)      -- Python's KeyError of `_mc_conns_by_prefix[prefix]`
     | none => (H, .error .keyError)
   | .call k m args =>
-    -- the body that runs is the one Python's MRO selects; `get_conn()` inside it asks
-    -- `self._MCALLERS_METAS[<name of the running function>]` for the components
+    -- the bodies that run are the ones Python's MRO selects; `get_conn()` asks `get_mcaller_meta()`, which
+    -- takes the entry of `self._MCALLERS_METAS` for the first frame of the stack named like a wrapper
     match H.callers[k]? with
     | none => (H, .error .keyError)
     | some cl =>
       match H.classes[cl.cls]? with
       | none => (H, .error .keyError)
       | some cd =>
-        match resolveWrapper H.classes cd.mro 16 m with
+        match callTop H.classes cd.mro m with
         | .error e => (H, .error e)
-        | .ok (m', b) =>
-          match lookup cd.metas m' with
+        | .ok (.pending _) => (H, .error .assertion)     -- never: the result is driven (`callTop_not_pending`)
+        | .ok (.made stack _ b) =>
+          match frameMeta cd.metas stack with
           | some comps => doCall H k comps { args with path := args.path ++ bodySuffix b }
-          | none => (H, .error .attributeError)
+          | none => (H, .error .valueError)              -- "No 'methods caller' metadata found"
   | .request c args =>
     match request H c args with
     | (H', .ok s) => (H', .ok (.sent s))
